@@ -3,9 +3,11 @@ package loadbalancer
 import (
 	"fmt"
 	"net/http/httptest"
+	"reflect"
 	"strings"
 	"testing"
 	"time"
+	"unsafe"
 
 	"github.com/0xReLogic/Helios/internal/config"
 	"github.com/0xReLogic/Helios/internal/zzverif/vh"
@@ -42,13 +44,22 @@ func c05RoundRobin(r *vres.Report, maxN int) {
 			if mask == 1<<n-1 {
 				continue // nobody eligible: C02's business
 			}
-			for warm := 0; warm < n; warm++ {
+			// warm-up offsets 0..n-1 by really picking, then the states "after 2^16-3, 2^31-3 and
+			// 2^32-3 picks" (reachable in days of traffic, unlike 2^64) by setting the rotation
+			// cursor — whatever unsigned/integer field of the strategy it is — to that count
+			for warm := 0; warm < n+3; warm++ {
+				if warm >= n && (mask != 0 && mask != 1) {
+					continue
+				}
 				cases++
 				var seq []int
 				elig := 0
 				vrt.Run(vrt.Options{}, func(s *vrt.Sched) {
 					k := newKit(s, kitOpts{Strategy: "round_robin", N: n, PassiveThr: 1, Window: 1000})
-					for w := 0; w < warm; w++ {
+					if warm >= n {
+						setCursors(k.lb.strategy, []uint64{1<<16 - 3, 1<<31 - 3, 1<<32 - 3}[warm-n])
+					}
+					for w := 0; w < warm && warm < n; w++ {
 						servedIndex(k, "10.0.0.1")
 					}
 					for i := 0; i < n; i++ {
@@ -484,6 +495,27 @@ func TestVerifC05S(t *testing.T) {
 	for i, sc := range scs {
 		if vh.MyShard(i) {
 			vh.RunS(r, "TestVerifC05S", sc)
+		}
+	}
+}
+
+// setCursors sets every integer cursor field of a strategy to v (truncated to the field's
+// width): the state the strategy is in after v picks, without naming the field.
+func setCursors(st Strategy, v uint64) {
+	rv := reflect.ValueOf(st)
+	for rv.Kind() == reflect.Ptr || rv.Kind() == reflect.Interface {
+		rv = rv.Elem()
+	}
+	if rv.Kind() != reflect.Struct {
+		return
+	}
+	for i := 0; i < rv.NumField(); i++ {
+		f := rv.Field(i)
+		switch f.Kind() {
+		case reflect.Uint64, reflect.Uint32, reflect.Uint16, reflect.Uint, reflect.Uintptr:
+			reflect.NewAt(f.Type(), unsafe.Pointer(f.UnsafeAddr())).Elem().SetUint(v & (1<<uint(f.Type().Bits()) - 1))
+		case reflect.Int64, reflect.Int32, reflect.Int:
+			reflect.NewAt(f.Type(), unsafe.Pointer(f.UnsafeAddr())).Elem().SetInt(int64(v & (1<<uint(f.Type().Bits()-1) - 1)))
 		}
 	}
 }
